@@ -297,7 +297,7 @@ pub fn confirm_replay_fresh(path: &Path) -> bool {
 
 fn worker_c12(tier: &str, seed: u64) -> ExitCode {
     let id = "C12";
-    let runs = env_u64("VERIF_RUNS").unwrap_or(if tier == "thorough" { 12_000_000 } else { 600_000 });
+    let runs = env_u64("VERIF_RUNS").unwrap_or(if tier == "thorough" { 8_000_000 } else { 600_000 });
     let batch = Batch {
         runs,
         threads: threads(),
@@ -314,7 +314,8 @@ fn worker_c12(tier: &str, seed: u64) -> ExitCode {
     }
     let out = run_batch(&batch, Acc::default, |run_index, acc: &mut Acc| {
         let rs = run_seed(seed, id, run_index);
-        let (res, k, root_value) = arenasim::seeded_run(id, rs, &mut acc.stats);
+        let deep = tier == "thorough" && run_index % 2 == 1;
+        let (res, k, root_value) = arenasim::seeded_run_depth(id, rs, deep, &mut acc.stats);
         if run_index < 3 {
             acc.samples.push(json!({"run_index": run_index, "run_seed": rs, "k": k, "history": res.history}));
         }
@@ -382,7 +383,7 @@ fn worker_c12(tier: &str, seed: u64) -> ExitCode {
             "evaluations": stats.histories,
             "distinct_nontrivial": stats.history_hashes.len(),
             "rule": "one evaluation = one seeded operation history (3-60 calls) on Tree<u32,K>, K in {2,3}, \
-                     checked against the reference arena after every call. distinct = distinct sequences of \
+                     checked against the reference arena after every call (thorough tier, every other run: K up to 5, up to 250 calls). distinct = distinct sequences of \
                      (operation kind, outcome kind); non-trivial = the history contains at least one failing \
                      call (Err or panic) AND at least one re-use of a previously freed index.",
             "samples": samples,
@@ -946,8 +947,10 @@ fn worker_c11(tier: &str, seed: u64) -> ExitCode {
     let rule = "one evaluation = one execution of a scenario's pruning suffix under one fault plan. A scenario = seeded pool + \
                 fault-free prefix history (0-3 steps, populates caches) + suffix of 1-3 pruning steps. Per scenario: the fault-free \
                 baseline, EVERY (LP call position of the baseline x fault kind of the 12-entry menu) as a single-fault plan \
-                (exhaustive for that scenario), in the thorough tier every pair of positions for <= 12 calls, plus seeded multi-fault \
-                plans. distinct_nontrivial = distinct scenarios (hash of constructor kinds, operation sequence, number of LP calls) \
+                (exhaustive for that scenario; the quick tier restricts scenarios with more than 48 calls to 48 positions and counts \
+                them under probes), every pair of positions for <= 8 calls (quick, kinds Error/Unbounded/far-off) or <= 12 calls \
+                (thorough, whole menu), plus seeded multi-fault plans. A third of the scenarios answer the un-faulted calls with a \
+                different correct witness instead of the backend's own. distinct_nontrivial = distinct scenarios (hash of constructor kinds, operation sequence, number of LP calls) \
                 whose suffix makes at least one LP call.";
     let ev = json!({
         "property_id": id, "tier": tier, "seed": seed, "level": "fault_enumeration",
